@@ -5,7 +5,7 @@
 //!    program under a watchdog; outcome table compared with what the model of the required order
 //!    (drain, then reap) guarantees; syscall order of the parent checked with strace.
 
-use crate::checks::c15::FAKE_SAT;
+use crate::checks::c15::fake_sat;
 use crate::checks::c16::scratch_dir;
 use crate::choicesat::catch;
 use crate::report::{Report, Tier, Violation};
@@ -20,7 +20,7 @@ pub const BEHAVS: [&str; 6] = ["readall", "interleave", "writefirst", "noread", 
 /// body of `cvx c16-scenario <behav> <pad> <big>`: one exchange on the real code
 pub fn scenario_main(behav: &str, pad: usize, big: bool) -> i32 {
     let r = catch(|| {
-        let mut s = ExternalSatSolver::new(FAKE_SAT.to_string(), vec![format!("behav={}", behav), format!("pad={}", pad)]);
+        let mut s = ExternalSatSolver::new(fake_sat().to_string(), vec![format!("behav={}", behav), format!("pad={}", pad)]);
         s.add_clause(vec![Literal::from(1isize)]);
         s.add_clause(vec![Literal::from(-1isize)]);
         if big {
@@ -91,7 +91,8 @@ fn run_spin(variant: u8, capin: u8, capout: u8, want_trails: bool) -> Result<Spi
     for f in std::fs::read_dir(&dir).map_err(|e| e.to_string())?.flatten() {
         let _ = std::fs::remove_file(f.path());
     }
-    let model = "/verif/models/extsat.pml";
+    let model_path = format!("{}/models/extsat.pml", crate::report::verif_dir());
+    let model = model_path.as_str();
     let defs = [format!("-DVARIANT={}", variant), format!("-DCAPIN={}", capin), format!("-DCAPOUT={}", capout)];
     let o = Command::new("spin").arg("-a").args(&defs).arg(model).current_dir(&dir).output().map_err(|e| format!("spin: {}", e))?;
     if !o.status.success() || !dir.join("pan.c").exists() {
@@ -239,7 +240,7 @@ pub fn run_part3(rep: &mut Report, tier: Tier) {
     let capfile = scratch_dir("c16cap").join("cap.txt");
     let _ = std::fs::remove_file(&capfile);
     let _ = catch(|| {
-        let mut s = ExternalSatSolver::new(FAKE_SAT.to_string(), vec![format!("capout={}", capfile.display())]);
+        let mut s = ExternalSatSolver::new(fake_sat().to_string(), vec![format!("capout={}", capfile.display())]);
         s.add_clause(vec![Literal::from(1isize)]);
         let _ = s.solve();
     });
